@@ -886,7 +886,11 @@ fn check_sink(
                 return;
             }
             let want_ok = b == 0 || m == b || m == 1;
-            if want_ok != result.is_ok() {
+            // an empty buffer has no slot to fill: with a stream that is neither empty nor a
+            // single item both answers satisfy the text ("fills every slot" holds vacuously,
+            // "reports a length mismatch" is also true); nothing may be written either way
+            let either = b == 0 && m > 1;
+            if !either && want_ok != result.is_ok() {
                 complain(format!(
                     "write of a stream of {m} items into a buffer of length {b} returned {result:?}"
                 ));
